@@ -315,7 +315,7 @@ class WriteFaults(Engine):
         if tier == "quick":
             return {"runs": 220, "deadline_s": 240, "shrink_s": 60, "level": "fault_enumeration", "f3_samples": 48,
                     "chunk": 2, "expected_probes": EXPECTED_PROBES}
-        return {"runs": 6000, "deadline_s": 3300, "shrink_s": 240, "level": "fault_enumeration", "f3_samples": 100000,
+        return {"runs": 3000, "deadline_s": 3300, "shrink_s": 240, "level": "fault_enumeration", "f3_samples": 100000,
                 "chunk": 4, "expected_probes": EXPECTED_PROBES}
 
     def prepare(self, prop: str, cfg: Dict[str, Any]) -> None:
@@ -706,7 +706,8 @@ class WriteFaults(Engine):
             for name in sorted(dirs + files):
                 path = os.path.join(root, name)
                 rel = os.path.relpath(path, directory)
-                if skip and os.path.abspath(path) == os.path.abspath(skip):
+                # (a log path that is a symlink makes the logger create its target: that file is the log too)
+                if skip and os.path.realpath(path) == os.path.realpath(skip):
                     continue
                 if os.path.islink(path):
                     out[rel] = ["link", os.readlink(path)]
